@@ -4,7 +4,7 @@ CONSTANTS
   MaxChats = 1
   MaxSteps = 5
   GenDepth = 99
-  Ops = {"goneidle","wake","loginbegin","loginend","closebegin","closeend","churn","rawfail","connect","login","agreed","setinfo","userlist","close","chat","invitenew","invite","reject","join","leave","subject","pm","broadcast","getinfo","setuser","kick","banadd","wait","restart"}
+  Ops = {"goneidle","wake","loginbegin","loginend","closebegin","closeend","churn","rawfail","connect","dial","handshake","login","agreed","setinfo","userlist","close","chat","invitenew","invite","reject","join","leave","subject","pm","broadcast","getinfo","setuser","kick","banadd","wait","restart"}
   Thin = FALSE
 INIT Init
 NEXT Next
